@@ -260,3 +260,16 @@ Example md_examples :
   p (2021, 1, 15) [48; 51; 47; 51; 49] = DOk (2020, 3, 31) /\
   p (1400, 1, 15) [48; 50; 47; 50; 56] = DErr DBadYear.
 Proof. vm_compute. repeat split. Qed.
+
+(* the source facts the model rests on, re-read from times.cc on every run: the reader list, the
+   separator rewriting, the strlen guard, the written format, and that the cache of custom date
+   formatters is keyed by the exact format string (so format_date raw dn is a function of raw and
+   dn alone, as in the model, however many formats one run uses) *)
+Theorem source_facts :
+  default_readers = [R_md; R_ymd; R_ym; R_y2md; R_dash] /\
+  src_convert_separators_default = true /\ src_input_format_pushes_front = true /\
+  src_input_format_disables_conversion = true /\ src_sep_from = (45, 46) /\ src_sep_to = 47 /\
+  src_max_date_len = 127 /\ src_written_date_format = [37; 89; 47; 37; 109; 47; 37; 100] /\
+  src_format_cache_exact_match = true.
+Proof. split; [exact default_readers_eq | exact source_switches]. Qed.
+Print Assumptions source_facts.
